@@ -360,7 +360,12 @@ pub fn one_case(ctx: &Ctx, case: u64, l: &mut Local) {
             let seg = b64e(&bytes);
             let good_h = if r.chance(40) {
                 // header whose alg (or typ / kid) holds multi-byte characters at every small byte offset
-                let a = *r.pick(&["ES2\u{e9}", "non\u{e9}", "\u{e9}\u{e9}", "ES25\u{1f600}", "E\u{1f600}", "\u{1f600}", "none\u{e9}", "HS2\u{20ac}6", "", "NONE", "nOnE", "E\u{17f}56", "\u{20ac}S2", "ES\u{b2}6", "H\u{e9}256", "\u{e9}S256"]);
+                let swept = tamper::boundary_text(&mut r);
+                let a: &str = if r.chance(50) {
+                    &swept
+                } else {
+                    *r.pick(&["ES2\u{e9}", "non\u{e9}", "\u{e9}\u{e9}", "ES25\u{1f600}", "E\u{1f600}", "\u{1f600}", "none\u{e9}", "HS2\u{20ac}6", "", "NONE", "nOnE", "E\u{17f}56", "\u{20ac}S2", "ES\u{b2}6", "H\u{e9}256", "\u{e9}S256"])
+                };
                 match r.below(3) {
                     0 => b64e(json!({"alg": a}).to_string().as_bytes()),
                     1 => b64e(json!({"alg": "ES256", "typ": a}).to_string().as_bytes()),
@@ -607,6 +612,7 @@ pub fn one_case(ctx: &Ctx, case: u64, l: &mut Local) {
                     payload.as_object_mut().unwrap().remove("iss");
                 }
                 2 => payload["iss"] = rand_json(&mut r, 1),
+                3 if r.chance(50) => payload["iss"] = json!(tamper::boundary_text(&mut r)),
                 3 => payload["iss"] = json!(*r.pick(&["https://example.com/100%\u{20ac}", "%a\u{e9}\u{2026}", "%", "%4", "%e9%", "%%%\u{1f600}", "a%\u{e9}", "\u{e9}%41", "https://issuer.example/%41%7E"])),
                 _ => payload["iss"] = json!("https://issuer.example/A"),
             }
